@@ -212,16 +212,28 @@ def install_iter(reg):
         params={"self": lambda ex, name: ex.bm.new_object(__import__("pyubx2").UBXReader),
                 "datastream": stream_or_socket, "msgmode": "int", "validate": "int", "protfilter": "int",
                 "quitonerror": "int", "parsebitfield": "boolint", "labelmsm": "int", "bufsize": "nat",
-                "parsing": "bool", "errorhandler": ("const", None)},
+                "parsing": "bool", "errorhandler": handler_or_none},
         requires=["bufsize >= 1"],
         ensures=[("options-stored", "self._protfilter == protfilter and self._quitonerror == quitonerror and "
                                     "self._validate == validate and self._parsebf == parsebitfield and "
                                     "self._labelmsm == labelmsm and self._msgmode == msgmode and self._parsing == parsing"),
+                 ("handler-stored", "self._errorhandler is errorhandler"),
                  ("stream-is-the-bytes-given", "st_data(self._stream) == st_data_of_input(datastream) and "
                                                "st_pos(self._stream) == old(st_pos_of_input(datastream))")],
         raises={"UBXStreamError": "msgmode not in (0, 1, 2, 3)"},
         raises_iff={"UBXStreamError": "msgmode not in (0, 1, 2, 3)"},
         modifies=["self.*", "datastream.d"]))
+
+
+def handler_or_none(ex, name):
+    """errorhandler argument: a callable or None"""
+    from pvc.models_io import HandlerModel
+    if ex.st.choice(2, "errorhandler-given") == 0:
+        return None
+    return HandlerModel.new(ex)
+
+
+handler_or_none.native = lambda v: None
 
 
 def stream_or_socket(ex, name):
